@@ -2,7 +2,7 @@
 (* C11: results of real IndividualNodes.Compare runs (every degree of         *)
 (* parallelism, perturbed schedules) judged by MatchingOps.tla with the       *)
 (* inputs and the measured similarities of that very run.                     *)
-EXTENDS MatchingOps, Json
+EXTENDS MatchingOps, MatchingLogOps, Json
 
 Trace == ndJsonDeserialize("matching_obs.ndjson")
 VARIABLES i, res
@@ -20,12 +20,16 @@ Failed(e) == SelectSeq(Clauses(e), LAMBDA c : ~c[2])
 \* the sequential run refines the sequential semantics of the specification
 Model(e) == NoTiesI(e.I) => PairsOf(e.seq) = SeqPairsI(e.I)
 
+\* the recorded per-goroutine logs are walks of the processes of Matching.tla (only for runs that returned)
+LogDrift(e) == IF e.timeout \/ e.panic # "" \/ ~e.haslogs THEN <<>> ELSE LogFailed(e)
+
 TInit == i \in 1..Len(Trace) /\ res = "pending"
 TNext == /\ res = "pending"
          /\ LET e == Trace[i]  f == Failed(e) IN
-            /\ res' = IF f # <<>> THEN "no" ELSE IF ~Model(e) THEN "drift" ELSE "yes"
+            /\ res' = IF f # <<>> THEN "no" ELSE IF ~Model(e) \/ LogDrift(e) # <<>> THEN "drift" ELSE "yes"
             /\ (res' = "no" => \A q \in 1..Len(f) : PrintT(<<"BAD", i, "prop", f[q][1]>>))
-            /\ (res' = "drift" => PrintT(<<"BAD", i, "model", "sequential-semantics">>))
+            /\ ((res' = "drift" /\ ~Model(e)) => PrintT(<<"BAD", i, "model", "sequential-semantics">>))
+            /\ (res' = "drift" => \A q \in 1..Len(LogDrift(e)) : PrintT(<<"BAD", i, "model", LogDrift(e)[q][1]>>))
          /\ UNCHANGED i
 TSpec == TInit /\ [][TNext]_tvars
 Ok == res \notin {"no", "drift"}
